@@ -413,14 +413,15 @@ class Monitor:
     def on_event(self, sim, event):
         t = event.time
         self.req("C03", "event-at-clock", t == sim._simulator_time, str(event.event_type))
-        self.req("C03", "events-in-time-order", t.time >= self.last_event_time, str(event.event_type))
-        self.last_event_time = t.time
-        self.events.append((t.time, event.event_type, self.tname(event.task) if event.task is not None else None))
+        t_us = t.to(US).time  # event times may be written in another unit
+        self.req("C03", "events-in-time-order", t_us >= self.last_event_time, str(event.event_type))
+        self.last_event_time = t_us
+        self.events.append((t_us, event.event_type, self.tname(event.task) if event.task is not None else None))
         if event.event_type == EventType.SIMULATOR_END:
             self.ended = True
-            self.end_time = t.time
+            self.end_time = t_us
         if event.event_type == EventType.SCHEDULER_START:
-            self.sched_invocations.append(t.time)
+            self.sched_invocations.append(t_us)
             if "C18" in self.on:
                 self.frontier_oracle(sim, t)
             if "C08" in self.on:
